@@ -3,7 +3,10 @@
 From Coq Require Import List Bool NArith Arith Lia Wf_nat.
 From Coq Require Import Strings.Byte.
 From Verif Require Import Base.Bytes Base.Hex Generated.SrcConsts Model.Uri Spec.PathSpec.
+From Coq Require Import List Bool NArith Arith Lia.
+From Verif Require Import Base.Bytes Base.Hex Generated.SrcConsts Model.Uri Model.UriImp.
 From Verif Require Import Proofs.PathProofs.
+From Verif Require Import Proofs.PathProofs Proofs.UriImpProofs.
 Local Open Scope byte_scope.
 
 Theorem C09_normalize_elem_path_spec :
@@ -71,3 +74,15 @@ Theorem C09_model_is_spec_plus_refuted :
   exists s3 p, has_plus p = true /\ canon_path s3 p <> spec_path s3 p.
 Proof. exact PathProofs.C09_model_is_spec_plus_refuted. Qed.
 Print Assumptions C09_model_is_spec_plus_refuted.
+
+Theorem C09_normalize_elem_imp_correct :
+  forall s,
+  normalize_elem_imp s = Done (normalize_elem s).
+Proof. exact UriImpProofs.normalize_elem_imp_correct. Qed.
+Print Assumptions C09_normalize_elem_imp_correct.
+
+Theorem C09_canon_path_imp_correct :
+  forall s3 p,
+  canon_path_imp s3 p = Done (canon_path s3 p).
+Proof. exact UriImpProofs.canon_path_imp_correct. Qed.
+Print Assumptions C09_canon_path_imp_correct.
